@@ -158,10 +158,12 @@ def run(ctx):
         with warnings.catch_warnings():
             warnings.simplefilter("ignore")
             try:
+                # the flag as the caller may hold it: a Python bool, a numpy bool read back from a settings table, 1 / 0
+                filt_arg = [filt, np.bool_(filt), int(filt)][(k // 2) % 3]
                 result = fpm.fit_production_pressure(prod, pvt, 6000.0, filter_window_size=window, pressure_imax=p_imax, inplace_max=inplace_max,
-                                                     filter_zero_prod_days=filt, n_iter=budget)
+                                                     filter_zero_prod_days=filt_arg, n_iter=budget)
             except Exception as e:  # noqa: BLE001
-                bad("fit_production_pressure raises on admissible data", dict(days=nd, filter=filt, window=window, n_iter=budget), repr(e)[:200])
+                bad("fit_production_pressure raises on admissible data", dict(days=nd, filter=filt, filter_given_as=type(filt_arg).__name__, window=window, n_iter=budget), repr(e)[:200])
                 continue
         ev += 1
         if not prod.equals(snap):
